@@ -12,7 +12,7 @@ from hgsim.util import canon, digest, mix
 
 ID = "C05"
 LEVEL = "exploration"
-BUDGET = {"quick": (8, 260, 45), "thorough": (16, 16000, 600)}
+BUDGET = {"quick": (8, 650, 90), "thorough": (16, 16000, 600)}
 RULE = (
     "seeded random DAGs (as C01); a random convex node subset (closed under paths between its members) is wrapped as Graph(...).as_node(), "
     "recursively to depth 3; bound values are moved onto the inner graph (and kept on the outer graph when the name is also used outside); "
